@@ -360,8 +360,8 @@ func uncOps(r *rng.R, n int) []opSpec {
 		}
 	}
 	if r.Bool() {
-		nn := 2 + r.Intn(2)
-		ops = append(ops, opSpec{Kind: "split", N: nn, Min: "1" + unit})
+		// the largest candidate is an unconfirmed output that an outstanding request holds
+		ops = append(ops, opSpec{Kind: "split", N: 3 + r.Intn(3), Min: fmt.Sprintf("U%d", 4+r.Intn(3))})
 	}
 	ops = append(ops, opSpec{Kind: "release", Ref: -2}, opSpec{Kind: "fund", V2: v2, Amount: "bal+1", Unc: true},
 		opSpec{Kind: "broadcast", Ref: -1}, opSpec{Kind: "fund", V2: v2, Amount: "bal+1", Unc: true})
@@ -469,7 +469,7 @@ func shrinkCase(spec caseSpec, kind string) (caseSpec, failure) {
 
 func runC07(c *hx.Ctx) {
 	res := c.Res
-	res.Rule = "a case = options (from the 4x4x4x2 grid of DefragThreshold, MaxInputsForDefrag, MaxDefragUTXOs, ReservationDuration) + a mined wallet state (0-8 mature outputs with distinct or tied values, 0-2 immature) + an operation sequence over FundTransaction/FundV2Transaction (amount grid: 0, 1, prefix sums +-1, balance, balance+1; useUnconfirmed; pre-existing inputs), ReleaseInputs, sign+submit to the pool (v1, v2, through the wallet), Redistribute, SplitUTXO, mined blocks, blocks that reach the manager but not yet the wallet store (1, 5, 40 blocks behind) with funding, signing and submitting inside that window, wallet/manager restarts, expiry; non-trivial := at least one call selected inputs and the sequence has at least three operations; distinct by the abstract case"
+	res.Rule = "a case = options (from the 4x4x4x2 grid of DefragThreshold, MaxInputsForDefrag, MaxDefragUTXOs, ReservationDuration) + a mined wallet state (0-8 mature outputs with distinct or tied values, 0-2 immature) + an operation sequence over FundTransaction/FundV2Transaction (amount grid: 0, 1, prefix sums +-1, balance, balance+1; useUnconfirmed; pre-existing inputs), ReleaseInputs, sign+submit to the pool (v1, v2, through the wallet), Redistribute, SplitUTXO, mined blocks, blocks that reach the manager but not yet the wallet store (1, 5, 40 blocks behind) with funding, signing and submitting inside that window, several useUnconfirmed requests outstanding at once over unconfirmed outputs of the wallet's own pooled transactions, wallet/manager restarts, expiry; non-trivial := at least one call selected inputs and the sequence has at least three operations; distinct by the abstract case"
 	if os.Getenv("C07_SOAK_ONLY") != "" {
 		soak(c)
 		return
@@ -553,6 +553,11 @@ func runC07(c *hx.Ctx) {
 		}
 		s.Cfg.Short = s.Cfg.Short && r.Chance(1, 3)
 		s.Ops = uncOps(r, len(s.Setup.Values))
+		for _, o := range s.Ops {
+			if o.Kind == "split" {
+				s.Cfg.Thresh = 30 // SplitUTXO refuses n > DefragThreshold
+			}
+		}
 		specs = append(specs, s)
 	}
 
